@@ -447,9 +447,30 @@ class Wraps(Exception):
     """the term contains a plain +, - or * that leaves the u32 range at this point (wraps in release, panics in debug)"""
 
 
+_INT_RANGE = {"u8": (0, 1 << 8), "u16": (0, 1 << 16), "u32": (0, 1 << 32), "u64": (0, 1 << 64), "usize": (0, 1 << 64),
+              "i8": (-(1 << 7), 1 << 7), "i16": (-(1 << 15), 1 << 15), "i32": (-(1 << 31), 1 << 31), "i64": (-(1 << 63), 1 << 63), "isize": (-(1 << 63), 1 << 63)}
+
+
+def _int_ty(term):
+    """integer type of a term as far as the term says: constants and casts carry it, an operation has that of its operands,
+    leaves (fields, parameters) are u32 unless wrapped in a cast"""
+    if isinstance(term, tuple) and term:
+        if term[0] == "const" and len(term) > 3 and term[3] in _INT_RANGE:
+            return term[3]
+        if term[0] == "cast" and term[2] in _INT_RANGE:
+            return term[2]
+        if term[0] == "bin":
+            return _int_ty(term[2])
+        if term[0] == "proj" and term[2] in (("f:0",),) and isinstance(term[1], tuple) and term[1][0] == "bin":
+            return _int_ty(term[1])
+    return "u32"
+
+
 def eval_u32(term, leaf):
     """value of an integer origin term; `leaf(term)` gives the value of a parameter / field or None.
-    returns an int, or None when the term uses something this evaluator does not know; raises Wraps"""
+    returns an int, or None when the term uses something this evaluator does not know; raises Wraps.
+    Plain `+ - *` are judged in the type of their operands (an `as i64` widening makes room for a negative difference),
+    `as` casts to a narrower type wrap silently, as they do in Rust."""
     v = leaf(term)
     if v is not None:
         return v
@@ -463,13 +484,15 @@ def eval_u32(term, leaf):
             d = str(term[2] or "")
             return U32 - 1 if d.endswith("u32::MAX") or d.endswith("::MAX") and "u32" in d else None
     if k == "cast":
-        return eval_u32(term[1], leaf)
+        x = eval_u32(term[1], leaf)
+        if x is None or term[2] not in _INT_RANGE:
+            return x
+        lo, hi = _INT_RANGE[term[2]]
+        return (x - lo) % (hi - lo) + lo
     if k == "proj":
         # (a + b) in a build with overflow checks is AddWithOverflow(a, b).0
         if term[2] in (("f:0",),) and isinstance(term[1], tuple) and term[1][0] == "bin":
             return eval_u32(term[1], leaf)
-        if isinstance(term[1], tuple) and term[1][0] == "call" and term[2] == ("v:Some", "f:0"):
-            return None
         return None
     if k == "bin":
         a, b = eval_u32(term[2], leaf), eval_u32(term[3], leaf)
@@ -479,7 +502,8 @@ def eval_u32(term, leaf):
         r = {"Add": a + b, "Sub": a - b, "Mul": a * b}.get(op)
         if r is None:
             return None
-        if not 0 <= r < U32:
+        lo, hi = _INT_RANGE[_int_ty(term)]
+        if not lo <= r < hi:
             raise Wraps(op)
         return r
     if k in ("call", "ret"):
@@ -490,8 +514,9 @@ def eval_u32(term, leaf):
             a, b = eval_u32(args[0], leaf), eval_u32(args[1], leaf)
             if a is None or b is None:
                 return None
-            return {"saturating_add": min(a + b, U32 - 1), "saturating_sub": max(a - b, 0), "wrapping_add": (a + b) % U32,
-                    "wrapping_sub": (a - b) % U32, "min": min(a, b), "max": max(a, b), "abs_diff": abs(a - b)}[tail]
+            lo, hi = _INT_RANGE[_int_ty(args[0])]
+            return {"saturating_add": min(a + b, hi - 1), "saturating_sub": max(a - b, lo), "wrapping_add": (a + b - lo) % (hi - lo) + lo,
+                    "wrapping_sub": (a - b - lo) % (hi - lo) + lo, "min": min(a, b), "max": max(a, b), "abs_diff": abs(a - b)}[tail]
         if tail in ("unwrap_or",) and len(args) == 2 and isinstance(args[0], tuple) and args[0][0] == "call" \
                 and args[0][1].split("::")[-1] in ("checked_add", "checked_sub") and len(args[0][2]) == 2:
             a, b = eval_u32(args[0][2][0], leaf), eval_u32(args[0][2][1], leaf)
@@ -499,7 +524,10 @@ def eval_u32(term, leaf):
             if a is None or b is None or d is None:
                 return None
             r = a + b if args[0][1].endswith("checked_add") else a - b
-            return r if 0 <= r < U32 else d
+            lo, hi = _INT_RANGE[_int_ty(args[0][2][0])]
+            return r if lo <= r < hi else d
+        if tail in ("try_from", "try_into") or (tail in ("unwrap_or", "unwrap_or_default") and False):
+            return None
     return None
 
 
